@@ -335,9 +335,32 @@ func (h *ipv6HeaderTLVOption) serializeTo(data []byte, fixLengths bool, dryrun b
 	if !dryrun {
 		data[0] = h.OptionType
 		data[1] = h.OptionLength
-		copy(data[2:], h.OptionData)
+		// data is not zeroed: clear what OptionData does not cover
+		for i := 2 + copy(data[2:length], h.OptionData); i < length; i++ {
+			data[i] = 0
+		}
 	}
 	return length
+}
+
+// checkIPv6HeaderTLVOptions reports options which cannot be serialized.
+func checkIPv6HeaderTLVOptions(options []*ipv6HeaderTLVOption, fixLengths bool) error {
+	for i, opt := range options {
+		if opt == nil {
+			return fmt.Errorf("IPv6 header TLV option %d is nil", i)
+		}
+		if opt.OptionType == 0 && opt.ActualLength == 1 {
+			continue
+		}
+		if fixLengths {
+			if len(opt.OptionData) > 255 {
+				return fmt.Errorf("IPv6 header TLV option %d has %d bytes of data, at most 255 fit", i, len(opt.OptionData))
+			}
+		} else if len(opt.OptionData) > int(opt.OptionLength) {
+			return fmt.Errorf("IPv6 header TLV option %d has length %d but %d bytes of data", i, opt.OptionLength, len(opt.OptionData))
+		}
+	}
+	return nil
 }
 
 func decodeIPv6HeaderTLVOption(data []byte, df gopacket.DecodeFeedback) (h *ipv6HeaderTLVOption, _ error) {
@@ -497,6 +520,9 @@ func (i *IPv6HopByHop) SerializeTo(b gopacket.SerializeBuffer, opts gopacket.Ser
 	for _, v := range i.Options {
 		o = append(o, (*ipv6HeaderTLVOption)(v))
 	}
+	if err = checkIPv6HeaderTLVOptions(o, opts.FixLengths); err != nil {
+		return err
+	}
 
 	l := serializeIPv6HeaderTLVOptions(nil, o, opts.FixLengths)
 	bytes, err = b.PrependBytes(l)
@@ -508,6 +534,9 @@ func (i *IPv6HopByHop) SerializeTo(b gopacket.SerializeBuffer, opts gopacket.Ser
 	length := len(bytes) + 2
 	if length%8 != 0 {
 		return errors.New("IPv6HopByHop actual length must be multiple of 8")
+	}
+	if opts.FixLengths && length > 256*8 {
+		return fmt.Errorf("IPv6HopByHop of %d bytes does not fit the 8 bit header length", length)
 	}
 	bytes, err = b.PrependBytes(2)
 	if err != nil {
@@ -584,6 +613,14 @@ func (i *IPv6Routing) SerializeTo(b gopacket.SerializeBuffer, opts gopacket.Seri
 	const ipv6HeaderBaseLen = 8
 	totalLen := ipv6HeaderBaseLen + len(i.SourceRoutingIPs)*net.IPv6len
 	hdrExtLen := (totalLen - ipv6HeaderBaseLen) / ipv6HeaderBaseLen
+	if hdrExtLen > 255 {
+		return fmt.Errorf("IPv6Routing with %d addresses does not fit the 8 bit header length", len(i.SourceRoutingIPs))
+	}
+	for n, ip := range i.SourceRoutingIPs {
+		if ip.To16() == nil {
+			return fmt.Errorf("IPv6Routing address %d has invalid length %d", n, len(ip))
+		}
+	}
 
 	bytes, err := b.PrependBytes(totalLen)
 	if err != nil {
@@ -593,7 +630,10 @@ func (i *IPv6Routing) SerializeTo(b gopacket.SerializeBuffer, opts gopacket.Seri
 	bytes[1] = byte(hdrExtLen)
 	bytes[2] = i.RoutingType
 	bytes[3] = i.SegmentsLeft
-	copy(bytes[4:8], i.Reserved)
+	// the prepended bytes are not zeroed and Reserved may be unset
+	for n := 4 + copy(bytes[4:8], i.Reserved); n < 8; n++ {
+		bytes[n] = 0
+	}
 	for i, ip := range i.SourceRoutingIPs {
 		offset := 8 + i*16
 		copy(bytes[offset:offset+16], ip.To16())
@@ -731,6 +771,9 @@ func (i *IPv6Destination) SerializeTo(b gopacket.SerializeBuffer, opts gopacket.
 	for _, v := range i.Options {
 		o = append(o, (*ipv6HeaderTLVOption)(v))
 	}
+	if err = checkIPv6HeaderTLVOptions(o, opts.FixLengths); err != nil {
+		return err
+	}
 
 	l := serializeIPv6HeaderTLVOptions(nil, o, opts.FixLengths)
 	bytes, err = b.PrependBytes(l)
@@ -742,6 +785,9 @@ func (i *IPv6Destination) SerializeTo(b gopacket.SerializeBuffer, opts gopacket.
 	length := len(bytes) + 2
 	if length%8 != 0 {
 		return errors.New("IPv6Destination actual length must be multiple of 8")
+	}
+	if opts.FixLengths && length > 256*8 {
+		return fmt.Errorf("IPv6Destination of %d bytes does not fit the 8 bit header length", length)
 	}
 	bytes, err = b.PrependBytes(2)
 	if err != nil {
